@@ -91,8 +91,8 @@ def plan(tier, seed):
     for ns, parts, take in (("vfgen.beta", 4, 4), ("vfgen.alpha", 12 if q else 8, 3 if q else 8), ("vfgen.gamma", 12 if q else 8, 3 if q else 8)):
         for p in range(take):
             # (quick: each rich namespace is read back under one other hash seed per shard, alternating 2 / 3)
-            shards.append({"kind": "faults", "ns": ns, "part": p, "parts": parts, "trunc_samples": (10 if ns == "vfgen.beta" else 4) if q else (160 if ns == "vfgen.beta" else 40),
-                           "readers": ([2, 3] if ns == "vfgen.beta" else [2 + p % 2]) if q else ([2, 3, 4, 5, 6, 7] if ns == "vfgen.beta" else [2 + p % 3, 5 + p % 3])})
+            shards.append({"kind": "faults", "ns": ns, "part": p, "parts": parts, "trunc_samples": (10 if ns == "vfgen.beta" else 4) if q else (60 if ns == "vfgen.beta" else 40),
+                           "readers": ([2, 3] if ns == "vfgen.beta" else [2 + p % 2]) if q else ([2 + p % 3, 5 + p % 3, 3 + p % 2] if ns == "vfgen.beta" else [2 + p % 3, 5 + p % 3])})
     bundled = ["basilisp.string", "basilisp.set", "basilisp.walk"] if q else ["basilisp.string", "basilisp.set", "basilisp.walk", "basilisp.edn", "basilisp.json", "basilisp.data", "basilisp.pprint"]
     for i, nsname in enumerate(bundled):
         # one shard per bundled namespace; quick runs a third of the fault list each (rotating), thorough all of it
